@@ -172,7 +172,10 @@ func canStartSignedNumberAfter(r rune) bool {
 	switch r {
 	case 0, ' ', '\t', '\n', '\r',
 		'(', '[', '{', ',', ';', ':',
-		'+', '-', '*', '/', '<', '>', '=', '!', '&', '|':
+		'+', '-', '*', '/', '<', '>', '=', '!', '&', '|',
+		// the reader's prefix operators: in %-1, ^-1, ~-1 and ~@-1
+		// the minus starts the operand, it is not the operator -
+		'%', '^', '~', '@':
 		return true
 	default:
 		return false
